@@ -23,12 +23,21 @@ class _Return(Exception):
         self.v = v
 
 
-class Obj:
-    """an opaque object with host-provided methods: methods[name](args) -> value"""
+class Proceed(Exception):
+    """raised by a host object when the fragment reaches an operation the host does not model: evaluation got this far"""
 
-    def __init__(self, name, methods):
+    def __init__(self, what):
+        Exception.__init__(self, what)
+        self.what = what
+
+
+class Obj:
+    """an opaque object with host-provided methods: methods[name](args) -> value; with strict=False every other method raises Proceed"""
+
+    def __init__(self, name, methods, strict=True):
         self.name = name
         self.methods = methods
+        self.strict = strict
 
     def __repr__(self):
         return '<%s>' % self.name
@@ -90,6 +99,20 @@ class Interp:
             return hir.lit_int({'k': 'Lit', 'v': p['v']}) == v
         if k == 'Or':
             return any(self.bind(sp, v, env) for sp in p['sub'])
+        if k == 'Slice':
+            if not isinstance(v, list):
+                raise NoEval('slice pattern on %s' % type(v).__name__)
+            pre, mid, post = p.get('pre') or [], p.get('mid'), p.get('post') or []
+            if mid is None:
+                if len(v) != len(pre) + len(post):
+                    return False
+            elif len(v) < len(pre) + len(post):
+                return False
+            ok = all(self.bind(sp, x, env) for sp, x in zip(pre, v[:len(pre)]))
+            ok = ok and all(self.bind(sp, x, env) for sp, x in zip(post, v[len(v) - len(post):] if post else []))
+            if ok and mid is not None and isinstance(mid, dict):
+                ok = self.bind(mid, v[len(pre):len(v) - len(post)], env)
+            return ok
         raise NoEval('pattern %s' % hir.pp_pat(p))
 
     # ------------------------------------------------------------ expressions
@@ -226,6 +249,17 @@ class Interp:
             return self.method(e, env)
         if k in ('Assign', 'AssignOp', 'Let', 'For', 'While', 'Loop'):
             return self.stmt(e, env)
+        if k == 'Try':
+            v = self.ev(e['e'], env)
+            if isinstance(v, tuple) and v and v[0] == 'Err':
+                raise _Return(v)
+            if isinstance(v, tuple) and v and v[0] == 'Ok':
+                return v[1]
+            if _is_opt(v):
+                if v == NONE:
+                    raise _Return(NONE)
+                return v[1]
+            raise NoEval('? on %r' % (v,))
         if k == 'Struct':
             d = {'__struct__': (e['ctor'].get('path') or '')}
             for n, v in e['fields']:
@@ -238,6 +272,17 @@ class Interp:
         a = hir.ctor_call(e, 'Some')
         if a is not None:
             return some(self.ev(a[0], env))
+        for nm_ in ('Ok', 'Err'):
+            a2 = hir.ctor_call(e, nm_)
+            if a2 is not None:
+                return (nm_, self.ev(a2[0], env))
+        if c.endswith('vec::from_elem') and len(e['args']) == 2:
+            return [self.ev(e['args'][0], env)] * self.ev(e['args'][1], env)
+        fnode = hir.strip(e['fun'])
+        if fnode.get('k') == 'Path' and 'Ctor' in (fnode['res'].get('dk') or ''):
+            return ('ctor', fnode['res'].get('path'), tuple(self.ev(x, env) for x in e['args']))
+        if c in getattr(self, 'host_fns', {}):
+            return self.host_fns[c]([self.ev(x, env) for x in e['args']])
         if c.endswith(('Vec::<T>::new', 'Vec::new', 'VecDeque::<T>::new')) or (c.endswith('::new') and ('Vec<' in (e.get('ty') or ''))):
             return []
         if c.endswith('with_capacity') and 'Vec' in (e.get('ty') or '') + c:
@@ -272,6 +317,8 @@ class Interp:
         if isinstance(recv, Obj):
             if nm in recv.methods:
                 return recv.methods[nm]([self.ev(x, env) for x in args])
+            if not recv.strict:
+                raise Proceed('%s.%s' % (recv.name, nm))
             raise NoEval('method %s on %s' % (nm, recv.name))
         if nm in ('clone', 'to_owned', 'copied', 'cloned', 'iter', 'into_iter', 'iter_mut', 'by_ref', 'as_slice', 'to_vec', 'as_ref', 'as_mut', 'borrow', 'peekable', 'into', 'as_deref') and not args:
             if nm in ('clone', 'to_owned', 'to_vec') and isinstance(recv, (list, dict)):
@@ -440,6 +487,15 @@ class Interp:
                     i, j = A(0), A(1)
                     recv[i], recv[j] = recv[j], recv[i]
                     return None
+        if isinstance(recv, str):
+            if nm in ('to_string', 'to_owned', 'as_str', 'clone'):
+                return recv
+            if nm == 'len':
+                return len(recv)
+            if nm == 'chars':
+                return list(recv)
+            if nm == 'to_ascii_uppercase':
+                return recv.upper()
         if isinstance(recv, int) and not isinstance(recv, bool):
             if nm in ('min', 'max') and args:
                 return min(recv, A()) if nm == 'min' else max(recv, A())
